@@ -95,8 +95,7 @@ inline void AddField(Message & m, const Field & f) {
 // resolves padTo into a concrete blob field (so that every builder, C++ or C, builds the same Message)
 inline void Finalize(MsgSpec & s) {
    if ((s.fam != FAM_BIN)||(s.padTo < 0)) return;
-   Message m(s.what); for (size_t i=0; i<s.fields.size(); i++) AddField(m, s.fields[i]);
-   // a raw field named "pad" with one item of n bytes costs 4 (name length) + 4 (name incl. NUL) + 4 (type) + 4 (field bytes) + 4 (item length) + n = 20 + n bytes
+   // measured, not computed: the Message with a 1-byte pad tells what n bytes of pad will give
    Message probe(s.what); for (size_t i=0; i<s.fields.size(); i++) AddField(probe, s.fields[i]);
    (void) probe.AddData("pad", B_RAW_TYPE, "x", 1);
    const int32 base = (int32) probe.FlattenedSize() - 1;
@@ -228,7 +227,7 @@ inline MsgSpec RandomMessage(Family fam, Rng & r, bool simple, bool big) {
          switch(r.R(simple ? 3 : 6)) {
             case 0: s.fields.push_back(F('i', nm, 1 + r.R(3), r.R(50))); break;
             case 1: s.fields.push_back(F('s', nm, r.R(30), r.R(50))); break;
-            case 2: s.fields.push_back(F('b', nm, r.R(r.R(3) ? 300 : 6000), r.R(3))); break;
+            case 2: s.fields.push_back(F('b', nm, 1 + r.R(r.R(3) ? 300 : 6000), r.R(3))); break;   // (Message::AddData refuses 0 bytes, the C writers do not: not the same Message)
             case 3: s.fields.push_back(F('m', nm, 1, r.R(3))); break;
             case 4: s.fields.push_back(F('o', nm, 1, r.R(2))); break;
             default: s.fields.push_back(F('p', nm, 1 + r.R(2), r.R(3))); break;
@@ -271,7 +270,8 @@ inline void ItemsOfMessage(const Message & m, Gran g, std::vector<Bytes> & items
 struct Link {
    Pipe fwd, back; Script ws, rs;     // ws: what Write() calls of the sender get; rs: what Read() calls of the receiver get
    std::string name; Family fam; Gran gran; bool exact; uint32_t slack; uint32_t maxChunk; bool simple, big;
-   Link() : fam(FAM_BIN), gran(G_MSG), exact(false), slack(0), maxChunk(0), simple(false), big(true) {}
+   bool predictable;   // the bytes a Message puts on the wire do not depend on WHEN it is taken out of the queue (false: the sender's encoding changes on the way)
+   Link() : fam(FAM_BIN), gran(G_MSG), exact(false), slack(0), maxChunk(0), simple(false), big(true), predictable(true) {}
    virtual ~Link() {}
    virtual bool Prepare(uint32_t /*seed*/) {return true;}                     // e.g. a handshake under a seeded random segmentation
    virtual bool Queue(const MsgSpec & s) = 0;                                  // AddOutgoingMessage on the sender
@@ -315,7 +315,16 @@ static void OnAlarm(int) {
 // (CPU time of this process, not wall time: a busy machine must not look like a hang; the pipes are in memory, so a case that does not end is a loop)
 inline void ArmTimer(int seconds) {struct itimerval it; memset(&it, 0, sizeof(it)); it.it_value.tv_sec = seconds; (void) setitimer(ITIMER_PROF, &it, NULL);}
 inline void Watch(const std::string & what) {g_rep.current = what; g_rep.cases++; ArmTimer(20);}
-inline void InitHarness(const char * reportPath) {g_rep.f = fopen(reportPath, "w"); if (g_rep.f == NULL) {fprintf(stderr, "cannot write %s\n", reportPath); exit(3);} signal(SIGPROF, OnAlarm);}
+// a crash inside the gateway code (these programs feed it nothing but Messages it queued itself and a working transport) is a violation, not a harness failure
+static void OnCrash(int sig) {
+   if (g_rep.f) {
+      char num[16]; snprintf(num, sizeof(num), "%d", sig);
+      std::string s = "{\"case\":" + mj::ToString(mj::Value::Str(g_rep.current)) + ",\"violations\":[\"the gateway code crashed (signal " + std::string(num) + ") while moving Messages it had queued itself over a working transport: memory is corrupted, nothing it hands over afterwards can be trusted\"]}\n{\"summary\":true,\"aborted\":\"crash\"}\n";
+      if (write(fileno(g_rep.f), s.data(), s.size()) < 0) {}
+   }
+   _exit(0);
+}
+inline void InitHarness(const char * reportPath) {g_rep.f = fopen(reportPath, "w"); if (g_rep.f == NULL) {fprintf(stderr, "cannot write %s\n", reportPath); exit(3);} signal(SIGPROF, OnAlarm); signal(SIGSEGV, OnCrash); signal(SIGBUS, OnCrash); signal(SIGABRT, OnCrash); signal(SIGFPE, OnCrash); signal(SIGILL, OnCrash);}
 
 // ---------------------------------------------------------------------------------------------- GwAbs, as a monitor
 struct Monitor {
@@ -462,7 +471,7 @@ inline void ReplayBehaviour(LinkFactory mk, const std::string & cfg, const mj::V
          if (ret < 0) {o.violations.push_back(Fmt("step %u: DoOutput(%u) reported an error", (unsigned) stepNo, M)); dead = true; break;}
          C.ioCalls += L.ws.results.size(); for (size_t k=0; k<L.ws.results.size(); k++) {if (L.ws.results[k] == 0) C.zeroResults++; if (L.ws.results[k] == 1) C.oneByteResults++;}
          pas = cum;
-         if (L.exact) {
+         if ((L.exact)&&(L.predictable)) {
             // algorithm level: the call did exactly what GwBinaryImpl says
             std::vector<uint32_t> want; uint64_t p = pos0; for (size_t k=0; k<caps.size(); k++) {const uint64_t t = (caps[k] > p) ? caps[k] : p; want.push_back((uint32_t)(t - p)); p = t;}
             if (L.ws.results != want) {o.drift.push_back(Fmt("step %u DoOutput(%u): %u Write() calls instead of the %u of the specification (or other sizes)", (unsigned) stepNo, M, (unsigned) L.ws.results.size(), (unsigned) want.size())); drifted = true;}
@@ -482,7 +491,7 @@ inline void ReplayBehaviour(LinkFactory mk, const std::string & cfg, const mj::V
          if (ret < 0) {o.violations.push_back(Fmt("step %u: DoInput(%u) reported an error on a stream written by a gateway of the same type", (unsigned) stepNo, M)); dead = true; break;}
          C.ioCalls += L.rs.results.size(); for (size_t k=0; k<L.rs.results.size(); k++) {if (L.rs.results[k] == 0) C.zeroResults++; if (L.rs.results[k] == 1) C.oneByteResults++;}
          par = cum;
-         if (L.exact) {
+         if ((L.exact)&&(L.predictable)) {
             std::vector<uint32_t> want; uint64_t p = pos0; for (size_t k=0; k<caps.size(); k++) {const uint64_t t = (caps[k] > p) ? caps[k] : p; want.push_back((uint32_t)(t - p)); p = t;}
             if (L.rs.results != want) {o.drift.push_back(Fmt("step %u DoInput(%u): %u Read() calls instead of the %u of the specification (or other sizes)", (unsigned) stepNo, M, (unsigned) L.rs.results.size(), (unsigned) want.size())); drifted = true;}
             if ((uint64_t) ret != L.fwd.got - pos0) {o.drift.push_back(Fmt("step %u DoInput(%u) returned %lld but read %llu bytes", (unsigned) stepNo, M, (long long) ret, (unsigned long long)(L.fwd.got - pos0))); drifted = true;}
@@ -649,7 +658,8 @@ inline int CommonMain(int argc, char ** argv, LinkFactory mk) {
          T.runs += C.runs; T.messages += C.messages; T.ioCalls += C.ioCalls; T.zeroResults += C.zeroResults; T.oneByteResults += C.oneByteResults; T.itemsDelivered += C.itemsDelivered; T.bytesMoved += C.bytesMoved; T.traceLines += C.traceLines; T.tracedRuns += C.tracedRuns;
       }
       ArmTimer(0);
-      if (absLog) fclose(absLog); if (binLog) fclose(binLog);
+      if (absLog) fclose(absLog);
+      if (binLog) fclose(binLog);
       mj::Value s = CountersJson(T); s.set("summary", mj::Value::Bool(true)).set("mode", mj::Value::Str("explore")).set("per_config", per).set("stopped_early", mj::Value::Bool(g_rep.Stop()));
       g_rep.Line(s); fclose(g_rep.f);
       return 0;
